@@ -317,6 +317,10 @@ def run(index, rep, tier):
         rep.rule("R13.6", "tokenizer modes do not leak: a reader function that switches hyphens to tokens switches them back on every normal exit (otherwise the whole-document route tokenizes the rest of the file differently from the tree-only routes)")
         rep.floor("R13.6", "functions switching hyphens to tokens", 1, mode_pairing_rule(index, rep, "R13.6"))
 
+    # ---- R13.4 offsets are numbers
+    with rep.section("R13.4 offsets are numbers"):
+        rep.floor("R13.4", "numeric names in the offset-handling modules", 20, numeric_truthiness_rule(index, rep, "R13.4", ["dendropy.datamodel.treecollectionmodel", "dendropy.datamodel.basemodel", "dendropy.dataio.ioservice"]))
+
     # ---- R13.5
     with rep.section("R13.5"):
         for name in ("read_dataset", "read_tree_lists", "read_char_matrices"):
